@@ -304,13 +304,16 @@ def Tr.linRows : Tr → Rows
   | .homog _ (.a3 m) => [[m.l.r0.x, m.l.r0.y, m.l.r0.z], [m.l.r1.x, m.l.r1.y, m.l.r1.z], [m.l.r2.x, m.l.r2.y, m.l.r2.z]]
   | _ => []
 
+/-- `t.h_matrix` as rows -/
+def Tr.hRows : Tr → Rows
+  | .homog _ (.a2 m) => [[m.a, m.b, m.tx], [m.c, m.d, m.ty], [0, 0, 1]]
+  | .homog _ (.a3 m) =>
+      [[m.l.r0.x, m.l.r0.y, m.l.r0.z, m.t.x], [m.l.r1.x, m.l.r1.y, m.l.r1.z, m.t.y],
+       [m.l.r2.x, m.l.r2.y, m.l.r2.z, m.t.z], [0, 0, 0, 1]]
+  | _ => []
+
 /-- `t.h_matrix[i, j]` -/
-def Tr.hGet : Tr → Nat → Nat → Rat
-  | .homog _ (.a2 m), i, j => Rows.get [[m.a, m.b, m.tx], [m.c, m.d, m.ty], [0, 0, 1]] i j
-  | .homog _ (.a3 m), i, j =>
-      Rows.get [[m.l.r0.x, m.l.r0.y, m.l.r0.z, m.t.x], [m.l.r1.x, m.l.r1.y, m.l.r1.z, m.t.y],
-                [m.l.r2.x, m.l.r2.y, m.l.r2.z, m.t.z], [0, 0, 0, 1]] i j
-  | _, _, _ => 0
+def Tr.hGet (t : Tr) (i j : Nat) : Rat := Rows.get t.hRows i j
 
 /-- `t.set_rotation_matrix(rows, skip_checks=True)`: the linear block is overwritten (numpy refuses another shape) -/
 def Tr.setRotationSkip (t : Tr) (rows : Rows) : Except Err Tr :=
